@@ -32,10 +32,10 @@ def sh(cmd, cwd=None, env=None, timeout=1800):
 def do_import():
     src_root = '/tmp/seedwork'
     for d in sorted(os.listdir(src_root)):
-        if not d.startswith(('wt_', 'w2_')):
+        if not d.startswith(('wt_', 'w2_', 'w3_')):
             continue
         pid = d[3:]
-        off = 2 if d.startswith('w2_') else 0  # second seeding round: ids continue at -3
+        off = {'w2_': 2, 'w3_': 4}.get(d[:3], 0)  # later seeding rounds: ids continue at -3, -5
         sd = os.path.join(src_root, d, '_seed')
         if not os.path.isdir(sd):
             continue
